@@ -144,6 +144,11 @@ impl Check for ObsCheck {
             c.config.unique = false;
             out.push(c);
         }
+        if case.config.same_waker_mask != 0 {
+            let mut c = case.clone();
+            c.config.same_waker_mask = 0;
+            out.push(c);
+        }
         if case.config.teardown != 0 {
             let mut c = case.clone();
             c.config.teardown = 0;
